@@ -392,6 +392,7 @@ SKELETONS = [
     dict(pre=[12], effs=[17, 12], goal=[16], ntype="real", undef_u=True, second_action=[21, 10], pre2=[]),  # 13 values read an undefined fluent
     dict(pre=[11], effs=[14, 15], effcond=10, goal=[11], obj_fluent=True, w_init="o1", three_objects=True),  # 14 nested fluent application
     dict(pre=[], effs=[5, 16, 0], effcond=4, goal=[1], second_action=[3], pre2=[5], n_bounds="lower"),        # 15 half-bounded int
+    dict(pre=[], effs=[2, 12], goal=[0], second_action=[3], pre2=[], n_bounds="upper"),                       # 16 int bounded from above only
 ]
 
 
